@@ -146,6 +146,18 @@ Example C09_funref_regression :
   /\ Machine.run zops (compile (procs zops) funref_witness) 20 = Ok ([], Some (VQ 2%Z)).
 Proof. exact funref_witness_agrees. Qed.
 
+(* REGRESSION EXAMPLE for the repaired finding C09-jump-offset-wrap.  The hypothesis
+   compile_ok of C09_compile_correct is necessary, and the compiler now enforces it:
+   for a conditional whose then-branch is 65550 bytes long the reference value is 7, the
+   model compiler reports CodeTooLarge (kernel-computed), as the repaired implementation
+   does — before the repair the offsets were truncated to 16 bits and the machine
+   mis-jumped (implementation: panic / no value). *)
+Example C09_wrap_regression :
+  run_ref zops 10 wrap_witness = Ok ([], Some (VQ 7%Z))
+  /\ code_too_large (compile (procs zops) wrap_witness) = true
+  /\ compile_ok (compile (procs zops) wrap_witness) = false.
+Proof. exact (conj wrap_witness_reference wrap_witness_rejected). Qed.
+
 (* Non-vacuity of the main theorem: its hypotheses hold for a program with shadowing, a
    where-local, recursion through a function value, a struct literal with reordered
    fields, a list, string interpolation and print — and the conclusion is the real run. *)
